@@ -14,7 +14,7 @@ import (
 )
 
 func tightDefault(wr *Writer, data any, _ int) {
-	if !wr.NoReflect {
+	if !wr.NoReflect || 0 < len(wr.CreateKey) {
 		rv := reflect.ValueOf(data)
 		kind := rv.Kind()
 		if kind == reflect.Ptr {
